@@ -68,7 +68,42 @@
       `parseLink_replay_inline` — a successful inline-form `parse_link` is replayed IDENTICALLY (same
       label, destination, title, end) in every such frame (L1 + D).
 
-  HENCE the open lemma is reduced to ONE static, global property of the memo:
+  ═══ SECOND PART (`Lemmas/MemoSafeLam*.lean`): a simpler architecture that avoids laminarity ═══
+
+  KEY FACT (brute force, 0 exceptions in 11 million runs of coherent chains; check `NM-NESTED-MISS` of
+  `/verif/work/w9-memo/Brute.lean`): a NESTED label frame never has a memo MISS.  Every memo entry is
+  made by look-ahead that starts in the TOP frame, under the top `pos_max`; inside a link label the memo
+  is constant and the real tokenizer walks along the entries of the label walk that found the label.
+  The proof therefore has two halves, both by equality "guarded run = model run":
+
+   G. TOP FRAME (`Lemmas/MemoSafeLamTop.lean`, generic in the predicate `P` of nested entry states):
+      `TopInv` (same text, top `pos_max`, every memo entry ends `≤ pos_max` — so the frame is `Closed`
+      and A applies — and carries its WITNESS `Just`: the `skipStep` call that made it, or it is an
+      entry made over the nesting limit) is kept by all look-ahead (`skip_top`, `parseLink_top_G`) and
+      by the real chain (`tokStep_top`); `top_total`, `parseInlineG_eq`,
+      `parseInline_total_of_nested`: if at every state satisfying `P` the guarded nested run equals the
+      model's and leaves the memo alone (`TokEqAt`), and every nested frame entered from the top frame
+      satisfies `P` (`EntryP`), then `parseInline` is TOTAL.
+      `entryP_NF` (`MemoSafeLamFinal.lean`): `EntryP` holds for `P := NF` — the invariant of nested
+      states (`Lemmas/MemoSafeLamNF.lean`: constant memo with witnesses, the `]` at the frame end, and
+      `Outer`: the position lies on a label walk over the memo that finds the frame end).
+   H. PER-RULE COMPARISON (L2) between the witness state (look-ahead, top `pos_max`) and a nested real
+      state (smaller `pos_max`, different tree / caches):
+      `flat_L2` (text, newline, escape, autolink, entity), `real_silent_verdict`, `real_declines`,
+      `emph_real_L2` (`MemoSafeLamFlat.lean`); `back_L2`, `back_L2_none`, `run_cache_indep`
+      (`MemoSafeLamBack.lean`: code spans across caches — needs agreement on `inside_failed`, see OPEN);
+      `parseLinkL2_link` (`MemoSafeLamLink.lean`): the real link rule's `parse_link` in a nested frame —
+      inline form, full / collapsed / shortcut reference form, and every FAILING case — over any
+      `skip_token` that follows memo hits, at any fuel, is one fixed result that leaves the state alone
+      and, unless out of fuel, is the witness's result.  Tools (`MemoSafeLamWalk.lean`): `pwalk_below`
+      (a walk at a strictly lower bracket level ends strictly earlier), `pwalk_through`,
+      `pwalk_shrink`, `pwalk_det`, `pwalk_en`, `labelLoop_hits`, `parseLinkLabel_hits`;
+      `witness_summary`, `walk_below_bracket`, `just_unit_at_closer`, `just_at_bracket`.
+   I. NESTED FRAMES (`Lemmas/MemoSafeLamNest.lean`, in progress when this was written — see the report
+      of the session): `nested_eq`: from H, by induction on the fuel, every state satisfying `NF` has
+      guarded nested run = model nested run with the memo unchanged.
+
+  FIRST PART, conclusion: the open lemma is reduced to ONE static, global property of the memo:
 
       the memo is `Laminar` whenever the real link rule enters a nested frame.          (L3)
 
@@ -94,6 +129,7 @@ import MdIt.Lemmas.MemoSafeEntry
 import MdIt.Lemmas.MemoSafeRec
 import MdIt.Lemmas.MemoSafeWindow
 import MdIt.Lemmas.MemoSafeWindow2
+import MdIt.Lemmas.MemoSafeLamFinal
 import MdIt.Props.InlineTotal
 
 namespace MdIt.Inline
